@@ -6,7 +6,7 @@ import runner_common as rc
 LEVEL = "proof"
 # every way of reaching the retry loop without a breaker (the projection does not contain classifier calls, which the sugar
 # entry points make once more for the absent breaker)
-OPTS = {"entries": ["retry", "retry", "retry", "retry.ctx", "retrypolicy", "retrypolicy.ctx", "decorator"]}
+OPTS = {"entries": ["retry", "retry", "retry", "retry.ctx", "retrypolicy", "retrypolicy.ctx", "decorator", "retrycfg", "retrypolicycfg"]}
 
 
 def run(chk):
@@ -18,8 +18,7 @@ def run(chk):
     rc.run_runner_check(chk, "C03", "proj_C03", OPTS, theorems_ok=ok)
     if ok:
         import source_tie
-        source_tie.report(chk, source_tie.failure_tie(chk), "failure",
-                          "scripted call sequences (random, cap-mix, abort sentinels and sweeps): no property violation found")
+        source_tie.runner_ties(chk)
 
 
 def replay(path):
